@@ -113,6 +113,8 @@ def _result(spec, b, sig, detail, evals, mode):
     labels = [mode, "conns:%d" % len(spec["conns"]), "cids:%s" % ("0" if not ncid else "1-3" if ncid <= 3 else "4+")]
     if "cid_prefix_related" in feats:
         labels.append("cid_prefix_related")
+    if spec.get("container"):
+        labels.append("container:" + "/".join(sorted(spec["container"])))
     return {"sig": sig, "detail": detail, "nontrivial": len(spec["conns"]) >= 2 or ncid >= 3, "labels": labels, "evals": evals}
 
 
@@ -139,9 +141,14 @@ def spec_strategy(draw):
             c["steps"] = c["steps"][:4] + extra + c["steps"][4:]
         c["seed"] = c["seed"] * 8 + i
         conns.append(c)
-    return {"conns": conns, "order": draw(st.lists(st.integers(0, 3), min_size=1, max_size=6)), "tseed": draw(st.integers(1, 500)),
-            "hs": [draw(st.integers(2, 4000)), draw(st.integers(2, 4000))],
-            "opts": {"a": draw(st.booleans())}}
+    sc = {"conns": conns, "order": draw(st.lists(st.integers(0, 3), min_size=1, max_size=6)), "tseed": draw(st.integers(1, 500)),
+          "hs": [draw(st.integers(2, 4000)), draw(st.integers(2, 4000))],
+          "opts": {"a": draw(st.booleans())}}
+    # containers that carry less than the usual: packets without a timestamp of their own (Simple Packet Blocks), second resolution
+    cont = draw(st.sampled_from([None, None, None, {"spb": [1, 0]}, {"spb": [2, 1]}, {"spb": [3, 0]}, {"tsresol": 0}, {"tsresol": 3, "tsoffset": 7}]))
+    if cont:
+        sc["container"] = cont
+    return sc
 
 
 def stages(tier):
@@ -156,7 +163,7 @@ RULE = ("scenarios of 1-3 TLS/QUIC connections (QUIC with several CIDs of differ
         "prefix of a CID in use) are exported (a) by 4 fresh `python -m tlexport.main` processes with PYTHONHASHSEED 0 / 1 / two drawn values, three "
         "working directories and perturbed TZ/LANG/COLUMNS/HOME/LC_ALL, (b) in one process: A, A again, B, A, B with no reset between the runs (B = another capture with another key log of the same "
         "size), all writing to the same output path, which initially holds a longer stale file; each compared with what a fresh process exports for the same input; oracle: sha256 of the output file identical for the same "
-        "(capture, secrets, options).  Non-trivial: >= 2 sessions or >= 3 CIDs; evaluations count "
+        "(capture, secrets, options); some captures store packets in Simple Packet Blocks (no timestamps) or with a coarse if_tsresol.  Non-trivial: >= 2 sessions or >= 3 CIDs; evaluations count "
         "TLExport runs")
 ASSUMPTIONS = ["the capture and key-log files are byte-identical between the runs (same paths)"]
 
